@@ -25,7 +25,8 @@ CONSTANTS Cols,        \* set of abstract columns, e.g. 1..2
 
 VARIABLES cfg, cur, pend, pages, rgs, accepted, closed, hist
 vars == <<cfg, cur, pend, pages, rgs, accepted, closed, hist>>
-view == <<cfg, cur, pend, pages, rgs, accepted, closed>>
+\* the history itself is observation only, but its length bounds the behaviour (MaxOps), so the length is part of the view
+view == <<cfg, cur, pend, pages, rgs, accepted, closed, Len(hist)>>
 
 Limit == IF cfg.maxRows = 0 THEN 1000000 ELSE cfg.maxRows
 
